@@ -194,6 +194,15 @@ def canon(e, ac=AC_UNIFIER, flatten=True):
                 kids.extend(c.children)
             else:
                 kids.append(c)
+        if flatten and ac is AC_UNIFIER:
+            # a free pattern variable that is left no operand is bound to the neutral element (0 in a sum, 1 in a product):
+            # a + b + 0 counts as the regrouping a + b
+            neutral = 0 if isinstance(e, p.Sum) else 1
+            kept = [c for c in kids if isinstance(c, p.Expression) or isinstance(c, bool) or c != neutral]
+            if kept and len(kept) != len(kids):
+                kids = kept
+                if len(kids) == 1:
+                    return kids[0]
         kids.sort(key=repr)
         return type(e)(tuple(kids))
     if isinstance(e, p.Subscript):
